@@ -35,6 +35,10 @@ impl Prop for C09Prop {
         vec!["probe.agree.ok", "probe.agree.err", "probe.list-messages-checked", "probe.error-inside-list"]
     }
 
+    fn directed(&self, tier: Tier) -> Vec<Scenario> {
+        super::c04::enum_corpus("C09", tier, 1)
+    }
+
     fn gen(&self, rng: &mut Rng, tier: Tier) -> Scenario {
         let em = match rng.below(3) {
             0 => Emphasis::inflation(),
